@@ -63,6 +63,8 @@ def run(rep):
     if any(x["cands"] for x in kres):
         weather_native(rep)
     kp.confirm(rep, kres, WANT, 60)
+    from . import ephsweep
+    ephsweep.sweep(rep, {"riseset"})
     rep.samples = [{"obligation": o["name"], "status": o["status"], "paths": o.get("paths")} for o in rep.obligations]
 
 
